@@ -53,7 +53,20 @@ func c13Decorate(r *rand.Rand, in *DataInput) {
 					continue
 				}
 				if r.Intn(2) == 0 {
-					m.Params = append([]VarJ{{Name: fmt.Sprintf("rp%d", k), Type: s}}, m.Params...)
+					name := fmt.Sprintf("rp%d", k)
+					if r.Intn(3) == 0 {
+						// the parameter is called like the package of its replacement: the qualifier must stay usable
+						taken := false
+						for _, p := range append(append([]VarJ{}, m.Params...), m.Results...) {
+							if p.Name == t.PkgName {
+								taken = true
+							}
+						}
+						if !taken {
+							name = t.PkgName
+						}
+					}
+					m.Params = append([]VarJ{{Name: name, Type: s}}, m.Params...)
 				}
 				if r.Intn(3) == 0 {
 					if r.Intn(2) == 0 {
